@@ -654,20 +654,22 @@ func (a *asset) consolidateAsset(logger *slog.Logger) error {
 		// This is not an integral number of milliseconds, so we should drop this asset
 		return fmt.Errorf("cannot match loop duration %d for asset %s rep %s", a.LoopDurMS, a.AssetPath, refRep.ID)
 	}
-	badPreEncrypted := false
+	badDuration := false
 	for _, rep := range a.Reps {
-		if rep.ContentType != refRep.ContentType && !rep.PreEncrypted {
+		// Audio is re-segmented to follow the reference track, unless it is pre-encrypted (or the reference itself).
+		// All other representations are looped as they are and must have exactly the loop duration.
+		if rep.ContentType == "audio" && rep.ContentType != refRep.ContentType && !rep.PreEncrypted {
 			continue
 		}
 		repDurMS := 1000 * rep.duration() / rep.MediaTimescale
-		if repDurMS != a.LoopDurMS {
+		if repDurMS != a.LoopDurMS || repDurMS*rep.MediaTimescale != 1000*rep.duration() {
 			logger.Warn("Duration differs", "representation", rep.ID, "referenceRepresentation", refRep.ID, "refDurMS",
 				a.LoopDurMS, "repDurMS", repDurMS)
-			badPreEncrypted = true
+			badDuration = true
 		}
 	}
-	if badPreEncrypted {
-		return fmt.Errorf("pre-encrypted representations do not all have same duration")
+	if badDuration {
+		return fmt.Errorf("representations do not all have the loop duration")
 	}
 	return nil
 }
